@@ -44,6 +44,65 @@ def run_stubborn_cancel(rp, steps_before_exit):
     return early, sum(1 for r in rec if r[0] == 'unsched')
 
 
+def run_gone_cancel(rp, second_kill_too):
+    """the real Popen.cancel_task with the REAL LaunchMethod.cancel_task on a task whose process group cannot be signalled any
+    more: the process is no group leader (`new_session_per_task: False`) or was reaped a moment ago - `os.killpg` answers
+    "no such process".  The task was taken out of the executor's registry before the launcher is asked: whatever the
+    launcher meets, the release has to be published, once."""
+    import os, time, coop
+    import radical.pilot.agent.launch_method.base as lmb
+    from props import c07
+    rec = []
+    p = c07.make_executor(rp, rec, {'fault': False})
+    calls = []
+    class OsShim(object):
+        def __getattr__(self, k): return getattr(os, k)
+        def killpg(self, pid, sig):
+            calls.append(sig)
+            if len(calls) == 1 or second_kill_too:
+                raise ProcessLookupError(3, 'No such process')
+    class TimeShim(object):
+        def __getattr__(self, k): return getattr(time, k)
+        def sleep(self, s): pass
+    class GoneProc(object):
+        pid, code = 4244, None
+        def poll(self): return self.code
+        def wait(self, timeout=None):
+            self.code = -15
+            return self.code
+    task = {'uid': 'task.000000', 'state': 'AGENT_EXECUTING', 'origin': 'client', 'proc': GoneProc(), 'launcher_name': 'FORK',
+            'description': {'raptor_id': None}, 'slots': []}
+    p._tasks['task.000000'] = task
+    saved = (lmb.os, lmb.time)
+    lmb.os, lmb.time = OsShim(), TimeShim()
+    errs = []
+    ctl = coop.Controller()
+    try:
+        def cancel():
+            try: p.cancel_task(task)
+            except Exception as e: errs.append(type(e).__name__)
+        ctl.spawn('cancel', cancel, run_to_first_point=False)
+        for _ in range(60):
+            if ctl.where('cancel') == 'done': break
+            ctl.grant('cancel')
+    finally:
+        ctl.close()
+        lmb.os, lmb.time = saved
+    return sum(1 for r in rec if r[0] == 'unsched'), errs, 'task.000000' in p._tasks
+
+
+def gone_cancel_part(ctx, rp):
+    for second in (False, True):
+        n, errs, still = run_gone_cancel(rp, second)
+        ctx.case({'gone_cancel': second}, nontrivial=True)
+        if n != 1 or errs:
+            ctx.fail('cancel:resources-not-released-once-when-the-process-group-is-gone',
+                     'the launcher\'s signal meets no process group (%s): %d release(s) published, cancel_task raised %s, task still registered: %s'
+                     % ('both signals' if second else 'the first signal', n, errs or 'nothing', still), {'script': None, 'gone_cancel': second})
+    ctx.obligation('real Popen.cancel_task with the real LaunchMethod.cancel_task when the process group cannot be signalled any more: '
+                   'the resources are given back once', 'tie', True, '')
+
+
 def stubborn_cancel_part(ctx, rp):
     for k in (1, 2, 3, 5):
         early, total = run_stubborn_cancel(rp, k)
@@ -61,7 +120,12 @@ def run(ctx):
     nodelistsuite.run_concurrent(ctx)
     noopsuite.run(ctx, 'C03')
     stubborn_cancel_part(ctx, rpload.load())
+    gone_cancel_part(ctx, rpload.load())
 def replay(ctx, data):
+    if 'gone_cancel' in data['input']:
+        n, errs, still = run_gone_cancel(rpload.load(), data['input']['gone_cancel'])
+        print(n, errs, still)
+        return n == 1 and not errs
     if 'stubborn_cancel' in data['input']:
         early, total = run_stubborn_cancel(rpload.load(), data['input']['stubborn_cancel'])
         print(early, total)
